@@ -492,12 +492,25 @@ def judge_targets(ref, params, df, targets, valid):
 def simulate_once(fsim, params, init, vf=None, seed=0, targets=None, leaf="float", st_obj=None):
     import jax.numpy as jnp
 
+    # call variants that must not matter are rotated: targets as list / tuple, seed as python
+    # int / numpy integer, initial states as jax / numpy arrays
+    _CALLS[0] += 1
+    k = _CALLS[0]
     kw = {}
     if vf is not None:
         kw["vf_arr_list"] = [jnp.asarray(a) for a in vf]
     if targets is not None:
-        kw["additional_targets"] = list(targets)
-    st = pipeline.jnp_states(init) if st_obj is None else st_obj
+        kw["additional_targets"] = list(targets) if k % 2 else tuple(targets)
+    if k % 3 == 0:
+        seed = np.int64(seed)
+    elif k % 3 == 1:
+        seed = np.int32(seed % (2**31 - 1))
+    if st_obj is not None:
+        st = st_obj
+    elif k % 4 == 3:
+        st = {kk: np.asarray(v) for kk, v in init.items()}
+    else:
+        st = pipeline.jnp_states(init)
     df = fsim(dsl.lcm_params(params, leaf=leaf), initial_states=st, seed=seed, **kw)
     # the mapping handed in must come back unchanged (a user re-uses it for the next call)
     try:
@@ -509,6 +522,7 @@ def simulate_once(fsim, params, init, vf=None, seed=0, targets=None, leaf="float
 
 
 ARG_MUTATIONS = []
+_CALLS = [0]
 
 
 def drain_argument_mutations():
